@@ -72,6 +72,9 @@ R16 peek(): window [cursor, cursor + n), n by the size partition; short only
 at the end of the stream.  R17 None never meets `<` / arithmetic.  R18
 collecting loops: countdown used up at every exit, running total == collected,
 a non-empty backlog is part of the result.
+R19 (async) who-may-use: the one-shot iteration guard is tested / set by
+__aiter__ alone and no other method iterates `self` (pipe / exhaust / read* are
+repeatable and work after a started iteration).
 Not decided: readlines(hint) for hint == 0 (limit vs "no limit" is a convention
 of the reference cursor, not of the arithmetic).
 """
@@ -3666,12 +3669,25 @@ def _one_shot_guards(rd, f):
     for n in ast.walk(f.node):
         if isinstance(n, ast.Attribute) and isinstance(n.ctx, ast.Store) and dotted(n) and dotted(n).startswith('self.'):
             stored.add(dotted(n))
+    local = {}          # local name -> expressions it is bound to (a test may go through `started = self._flag`)
+    for n in ast.walk(f.node):
+        if isinstance(n, ast.Assign) and len(n.targets) == 1 and isinstance(n.targets[0], ast.Name):
+            local.setdefault(n.targets[0].id, []).append(n.value)
+        elif isinstance(n, ast.NamedExpr) and isinstance(n.target, ast.Name):
+            local.setdefault(n.target.id, []).append(n.value)
     out = []
+
+    def scan(e, depth=0):
+        for x in ast.walk(e):
+            if isinstance(x, ast.Attribute) and dotted(x) in stored and dotted(x) not in out:
+                out.append(dotted(x))
+            elif isinstance(x, ast.Name) and depth < 3:
+                for v in local.get(x.id, []):
+                    scan(v, depth + 1)
+
     for n in ast.walk(f.node):
         if isinstance(n, ast.If) and any(isinstance(s, ast.Raise) for s in n.body + n.orelse):
-            for x in ast.walk(n.test):
-                if isinstance(x, ast.Attribute) and dotted(x) in stored and dotted(x) not in out:
-                    out.append(dotted(x))
+            scan(n.test)
     return out
 
 
